@@ -19,7 +19,8 @@
   fields (`serialize_once_fields`) hold for every wrapper nesting.
 -/
 import AriadneModel.Model.ResultAnn
-import AriadneModel.Proofs.ArgDeliver
+import AriadneModel.Proofs.ArgCalls
+import AriadneModel.Properties.C03
 
 set_option linter.unusedSimpArgs false
 set_option linter.unusedVariables false
@@ -277,5 +278,164 @@ theorem usedNames_from_imports (d : ScalarData) (ht : truthy? (some d.type_) = s
 
 /-- every emitted `from … import name` is Python iff the finding trigger C07-F3 is off -/
 def importsWellFormed (d : ScalarData) : Bool := (scalarImports d).all (fun i => i.names.all (fun n => !hasDot n))
+
+theorem afterLastDot_nodot (l : List Char) : (afterLastDot l).contains '.' = false := by
+  induction l with
+  | nil => rfl
+  | cons c cs ih =>
+    by_cases hc : cs.contains '.' = true
+    · simp only [afterLastDot, hc, if_true]; exact ih
+    · have hc' : cs.contains '.' = false := by simpa using hc
+      by_cases hd : (c == '.') = true
+      · simp only [afterLastDot, hc', Bool.false_eq_true, if_false, hd, if_true]
+      · have hd' : (c == '.') = false := by simpa using hd
+        have hd'' : ('.' == c) = false := by
+          simp only [beq_eq_false_iff_ne, ne_eq] at hd' ⊢; exact fun e => hd' e.symm
+        simp only [afterLastDot, hc', Bool.false_eq_true, if_false, hd', List.contains_cons, hd'', Bool.false_or]
+
+theorem objectName_nodot (x : String) : hasDot (objectName x) = false := by
+  by_cases hx : hasDot x = true
+  · have hx' : x.toList.contains '.' = true := hx
+    simp only [objectName, hasDot, hx', if_true, String.toList_ofList]
+    exact afterLastDot_nodot x.toList
+  · simp only [objectName, hx]; simpa using hx
+
+theorem dottedImports_wellformed (l : List String) :
+    (dottedImports l).all (fun i => i.names.all (fun n => !hasDot n)) = true := by
+  induction l with
+  | nil => rfl
+  | cons y l ih =>
+    by_cases hy : hasDot y = true
+    · simp [dottedImports, hy, ih, objectName_nodot]
+    · simp [dottedImports, hy, ih]
+
+theorem imports_wellformed_iff (d : ScalarData) (hne : d.namesToImport ≠ []) :
+    importsWellFormed d = true ↔ trigImportKeyDotted d = false := by
+  have hd := dottedImports_wellformed d.namesToImport
+  cases hi : truthy? d.import_ with
+  | none => simp [importsWellFormed, scalarImports, hi, trigImportKeyDotted, hd]
+  | some m =>
+    have hemp : d.namesToImport.isEmpty = false := by
+      cases hl : d.namesToImport with
+      | nil => exact absurd hl hne
+      | cons a b => rfl
+    simp only [importsWellFormed, scalarImports, hi, hemp, List.all_append, Bool.and_eq_true, hd, and_true,
+      trigImportKeyDotted, Option.isSome_some, Bool.true_and]
+    simp [List.all_eq_true, List.any_eq_false]
+
+/-! ## 5. Top-level arguments: the property as written is false -/
+
+/-- C07 for the arguments of one call: `serialize` is called exactly once per non-null
+    occurrence (as a multiset: the calls of the request are a permutation of the entitled ones),
+    hence never for None and never for an omitted argument. -/
+def SerializedOnce (cfg : Cfg) (fns : UserFns) (async : Bool) (opName opText : String)
+    (defs : List VarDecl) (a : List AV) : Prop :=
+  ∃ req, send (envOf cfg) fns async opName opText defs a = .ok req ∧ req.calls.Perm (serCallsList cfg a)
+
+/-- every needed import is emitted (as Python) -/
+def ImportsOK (cfg : Cfg) : Prop := ∀ p ∈ cfg.scalars, importsWellFormed p.2 = true
+
+/-- C07 at full strength (argument side + imports; the result side is `parse_once`, which holds
+    unconditionally): for every operation, every schema-valid call and every scalar configuration. -/
+def C07_full : Prop :=
+  ∀ (cfg : Cfg) (fns : UserFns) (async : Bool) (opName opText : String) (defs : List VarDecl) (a : List AV),
+    C03.Valid_03 cfg fns defs → argsValid cfg (C03.idefs defs) a = true →
+      SerializedOnce cfg fns async opName opText defs a ∧ ImportsOK cfg
+
+/-- one trigger per open finding of findings.d/C07.json; the other name triggers are C03's
+    findings (the method cannot be called at all there) -/
+def Supported_07 (cfg : Cfg) (defs : List VarDecl) : Prop :=
+  C03.Supported_03 cfg defs ∧ ¬ (cfg.scalars.any (fun p => trigImportKeyDotted p.2) = true)   -- C07-F3
+
+instance (cfg : Cfg) (defs : List VarDecl) : Decidable (Supported_07 cfg defs) := by
+  unfold Supported_07; infer_instance
+
+theorem C07_partial (cfg : Cfg) (fns : UserFns) (async : Bool) (opName opText : String)
+    (defs : List VarDecl) (a : List AV) (hv : C03.Valid_03 cfg fns defs) (hs : Supported_07 cfg defs)
+    (hne : ∀ p ∈ cfg.scalars, p.2.namesToImport ≠ [])
+    (ha : argsValid cfg (C03.idefs defs) a = true) :
+    SerializedOnce cfg fns async opName opText defs a ∧ ImportsOK cfg := by
+  refine ⟨?_, ?_⟩
+  · exact send_calls cfg fns hv.hyp defs a opName opText "Client" async hv.inputTypes hv.varNames
+      ((C03.supported_iff cfg defs).mp hs.1) ha
+  · intro p hp
+    rw [imports_wellformed_iff p.2 (hne p hp)]
+    have := hs.2
+    simp only [List.any_eq_true, not_exists, not_and, Bool.not_eq_true] at this
+    exact this p hp
+
+/-- executable form of `SerializedOnce` (count and arguments of the calls), to evaluate witnesses -/
+def callArgKind : PV → String
+  | .none => "None"
+  | .unset => "UNSET"
+  | .list _ => "list"
+  | .leaf _ => "scalar"
+  | _ => "other"
+
+theorem perm_kinds {l1 l2 : List Call} (h : l1.Perm l2) :
+    (l1.map (fun c => callArgKind c.arg)).Perm (l2.map (fun c => callArgKind c.arg)) := h.map _
+
+/-- under `SerializedOnce` every call has a scalar value as argument -/
+theorem serializedOnce_scalar_args {cfg : Cfg} {fns : UserFns} {async : Bool} {opName opText : String}
+    {defs : List VarDecl} {a : List AV} (h : SerializedOnce cfg fns async opName opText defs a) :
+    ∃ req, send (envOf cfg) fns async opName opText defs a = .ok req ∧
+      ∀ c ∈ req.calls, callArgKind c.arg = "scalar" ∧ req.calls.length = (serCallsList cfg a).length := by
+  obtain ⟨req, h1, h2⟩ := h
+  refine ⟨req, h1, fun c hc => ⟨?_, h2.length_eq⟩⟩
+  obtain ⟨j, hj⟩ := serCallsList_scalar_args cfg a c (h2.mem_iff.mp hc)
+  simp [hj, callArgKind]
+
+def badCallsB (cfg : Cfg) (fns : UserFns) (async : Bool) (opName opText : String) (defs : List VarDecl) (a : List AV) : Bool :=
+  match send (envOf cfg) fns async opName opText defs a with
+  | .ok req => req.calls.any (fun c => callArgKind c.arg != "scalar") || req.calls.length != (serCallsList cfg a).length
+  | .error _ => true
+
+theorem not_bad_of_once {cfg : Cfg} {fns : UserFns} {async : Bool} {opName opText : String}
+    {defs : List VarDecl} {a : List AV} (h : SerializedOnce cfg fns async opName opText defs a) :
+    badCallsB cfg fns async opName opText defs a = false := by
+  obtain ⟨req, h1, h2⟩ := serializedOnce_scalar_args h
+  simp only [badCallsB, h1, Bool.or_eq_false_iff, List.any_eq_false, bne_iff_ne, ne_eq, Decidable.not_not]
+  refine ⟨fun c hc => by simpa using (h2 c hc).1, ?_⟩
+  cases hq : req.calls with
+  | nil =>
+    obtain ⟨r, hr1, hr2⟩ := h
+    rw [h1] at hr1; cases hr1
+    have := hr2.length_eq; rw [hq] at this; simpa using this
+  | cons c cs => have := (h2 c (by rw [hq]; simp)).2; rw [hq] at this; simpa using this
+
+/-- C07-F1: an omitted / None nullable custom-scalar argument: serialize(UNSET), serialize(None) -/
+theorem F1_witness_fails : ¬ SerializedOnce C03.scaCfg C03.wFns true "Q" "query Q" C03.f5Defs [.unset] :=
+  fun h => absurd (not_bad_of_once h) (by decide)
+theorem F1_none_witness_fails : ¬ SerializedOnce C03.scaCfg C03.wFns true "Q" "query Q" C03.f5Defs [.none] :=
+  fun h => absurd (not_bad_of_once h) (by decide)
+
+/-- C07-F2: one serialize(list) for a list of two scalars -/
+theorem F2_witness_fails : ¬ SerializedOnce C03.scaCfg C03.wFns true "Q" "query Q" C03.f7Defs C03.f7Args :=
+  fun h => absurd (not_bad_of_once h) (by decide)
+
+/-- C07-F3: `import` key together with a dotted path -/
+def f3Data : ScalarData :=
+  { type_ := ".custom_scalars.TA", serialize := some "serialize_a", parse := some "parse_a", import_ := some ".custom_scalars" }
+theorem F3_witness_fails : importsWellFormed f3Data = false ∧ trigImportKeyDotted f3Data = true := by decide
+
+example : argsValid C03.scaCfg (C03.idefs C03.f5Defs) [.unset] = true ∧
+    trigSerializeNullable (envOf C03.scaCfg) (C03.vdefs C03.f5Defs) = true := by decide
+example : argsValid C03.scaCfg (C03.idefs C03.f7Defs) C03.f7Args = true ∧
+    trigSerializeList (envOf C03.scaCfg) (C03.vdefs C03.f7Defs) = true := by decide
+
+theorem C07_full_false : ¬ C07_full := by
+  intro h
+  have hv : C03.Valid_03 C03.scaCfg C03.wFns C03.f5Defs := ⟨C03.sca_hyp, by decide, by decide⟩
+  exact F1_witness_fails (h C03.scaCfg C03.wFns true "Q" "query Q" C03.f5Defs [.unset] hv (by decide)).1
+
+/-! ## 6. Non-vacuity -/
+
+example : Supported_07 C03.exCfg C03.exDefs ∧ argsValid C03.exCfg (C03.idefs C03.exDefs) C03.exArgs = true := by decide
+example : badCallsB C03.exCfg C03.wFns false "Q" "query Q" C03.exDefs C03.exArgs = false := by decide
+example : (serCallsList C03.exCfg C03.exArgs).length = 2 := by decide
+example : conforms (.obj [("a", .list (.custom "ScA" false) true), ("b", .custom "ScA" true)] true)
+    (.obj [("a", .arr [.str "x", .null, .num 3 0]), ("b", .arr [.null])]) = true := by decide
+example : (occurrences [("ScA", C03.scaData)] (.obj [("a", .list (.custom "ScA" false) true), ("b", .custom "ScA" true)] true)
+    (.obj [("a", .arr [.str "x", .null, .num 3 0]), ("b", .arr [.null])])).length = 3 := by decide
 
 end Ariadne.C07
